@@ -17,7 +17,7 @@ SHARDS = {"quick": 8, "thorough": 16}
 RULE = ("authentic packets from the independent V2 encoder (frame lengths 0,1,15,16,17,31,32,33,100,255 and random); faults: "
         "every single-bit flip at every bit position and every truncation length (exhaustive per packet), single-byte "
         "substitutions (8 values/position quick, all 255 for 3 packets thorough), random multi-byte corruptions, length-field "
-        "rewrites; each fault class also replayed through LAN.send with the model device sending the corrupted packet (on a V2 connection - as the reply (to every transmission, or to the first one only with the default retry budget), right behind an authentic reply, or pushed while the connection is idle before the next exchange - and inside an intact V3 envelope on an authenticated V3 connection). Oracle: "
+        "rewrites; each fault class also replayed through LAN.send with the model device sending the corrupted packet (on a V2 connection - as the reply (to every transmission, or to the first one only with the default retry budget), right behind an authentic reply, or pushed while the connection is idle 0.05 s .. 2 h before the next exchange (all host clocks follow the virtual clock), or as the answer to a request that found an authentic packet waiting unread - and inside an intact V3 envelope on an authenticated V3 connection). Oracle: "
         "_Packet.decode raises ProtocolError (returning the original frame is tolerated and counted; any other result or "
         "exception type is a violation); in half of the cases the authentic packet is decoded first, as on a live connection. Non-trivial: corrupted != authentic, >= 6 bytes, still starts with 5A5A. Distinct by (packet, fault).")
 ASSUMPTIONS = ["fault model does not re-sign (a correctly re-signed packet is a different authentic packet; containment of those is C09)"]
@@ -100,7 +100,7 @@ def check_case(case: dict):
                     conn.send_stream(bad, delay=dev_.latency)
                     return ("drop",)
                 dev.on_data = on_data2
-            elif case.get("arrival") == "idle":
+            elif case.get("arrival") in ("idle", "queued"):
                 dev.default_action = ("raw", pkt)
             elif case.get("arrival") == "once":
                 # only the answer to the first transmission is altered; had the client asked again it would get the authentic one
@@ -118,7 +118,15 @@ def check_case(case: dict):
                     import asyncio
                     await lan.send(_frame(20), retries=1)
                     dev.conns[-1].send_stream(bad, delay=0.01)
-                    await asyncio.sleep(0.05)
+                    await asyncio.sleep(case.get("idle_wait", 0.05))      # (however long it sits there unread)
+                if case.get("arrival") == "queued" and not v3:
+                    # a clean exchange first; an authentic packet (a pushed report) arrives while the connection is idle and sits
+                    # unread; the answer to the next request is the altered packet
+                    import asyncio
+                    await lan.send(_frame(20), retries=1)
+                    dev.conns[-1].send_stream(pkt, delay=0.01)
+                    await asyncio.sleep(case.get("idle_wait", 0.05))
+                    dev.default_action = ("raw", bad)
                 if case.get("arrival") == "once":
                     out["frames"] = await lan.send(_frame(20))          # default retry budget
                     out["tx"] = len(dev.transmissions)
@@ -139,6 +147,8 @@ def check_case(case: dict):
         got = [bytes(f) for f in out["frames"]]
         if case.get("arrival") == "once" and not v3 and len(bad) > 0:
             return ("send/altered-reply-retried", f"the altered reply was discarded and the request sent again ({out.get('tx')} transmissions): LAN.send returned {[g.hex()[:30] for g in got]} (fault {case['fault']})")
+        if case.get("arrival") == "queued" and not v3 and len(bad) > 0:
+            return ("send/altered-reply-masked", f"the answer was an altered packet but LAN.send returned the authentic packet that had been waiting unread: {[g.hex()[:30] for g in got]} (fault {case['fault']})")
         if case.get("arrival") in ("behind", "idle") and not v3 and len(bad) > 0:
             return ("send/altered-packet-ignored", f"an altered packet that arrived {case['arrival']} the authentic traffic was dropped silently: LAN.send returned {[g.hex()[:30] for g in got]} (fault {case['fault']})")
         if got == [frame]:
@@ -170,7 +180,7 @@ def _run_one(ctx, case, pkt_len=None):
     pkt = _packet(case)
     bad = corrupt(pkt, case["fault"])
     nt = bad != pkt and len(bad) >= 6 and bad[:2] == b"\x5a\x5a"
-    ctx.case(hash((case["frame"], case.get("id", 0), repr(case["fault"]), case.get("via", ""), case.get("arrival"))), nt,
+    ctx.case(hash((case["frame"], case.get("id", 0), repr(case["fault"]), case.get("via", ""), case.get("arrival"), case.get("idle_wait"))), nt,
              cls=case["fault"][0] + ("/send" if case.get("via") else ""))
     ctx.sample(case["fault"][0] + ("/send" if case.get("via") else ""), case)
     return check_case(case)
@@ -250,6 +260,10 @@ def run(ctx) -> None:
                 case = dict(base, fault=f, via="send3" if s % 3 == 0 else "send")
                 if s % 3 and s % 4 in (1, 2, 3):
                     case["arrival"] = ["behind", "idle", "once"][s % 4 - 1]
+                elif s % 3 and s % 8 == 0:
+                    case["arrival"] = "queued"
+                if case.get("arrival") in ("idle", "queued"):
+                    case["idle_wait"] = [0.05, 2.6, 30.0, 7200.0][(s // 4) % 4]
                 ctx.check(case, lambda c: _run_one(ctx, c))
     ctx.sweep("fault classes through LAN.send", s, not ctx.quick)
 
@@ -263,7 +277,7 @@ def run(ctx) -> None:
     )
     cases = st.fixed_dictionaries({"frame": hexb(gens.frames_bytes(255)), "id": gens.device_ids(64), "fault": fault, "prime": st.booleans()})
     send_cases = st.fixed_dictionaries({"frame": hexb(gens.frames_bytes(120)), "id": gens.device_ids(64), "fault": fault, "via": st.sampled_from(["send", "send3"])},
-                                       optional={"arrival": st.sampled_from(["reply", "behind", "idle", "once"])})
+                                       optional={"arrival": st.sampled_from(["reply", "behind", "idle", "once", "queued"]), "idle_wait": st.sampled_from([0.05, 1.9, 2.6, 30.0, 7200.0])})
 
     def runner(case):
         return _run_one(ctx, case)
